@@ -1,7 +1,9 @@
 (* C11 - JSON printer never overruns its output; all output modes agree.
    Only statements, each closed by [exact] of a lemma proved in Printer/PrinterTheorems.v.
    CF = the printer with the repairs of fixes/C11-*.patch, CC = the pinned tree; both with the reserve, flush
-   size, nesting limit and number scratch size read from /repo's headers on every run. *)
+   size, nesting limit read from /repo's headers and the number printers' store size measured, on every run.
+   Nothing here is closed by computation on concrete sizes: a change of the constants re-checks exactly the side
+   conditions (C11_reserve_covers_runs and the three inequalities of std). *)
 From Flatcc.Printer Require Import FlushModel PrintOps FlushProofs OpsProofs PrinterTheorems.
 Local Open Scope Z_scope.
 
@@ -107,55 +109,14 @@ Theorem C11_fast_run_is_run : forall C ops s, run_f C ops s = run C ops s.
 Proof. exact run_f_eq. Qed.
 Print Assumptions C11_fast_run_is_run.
 
-(* ---- the full statements are false of the pinned tree ---- *)
-
-(* fixed buffer of exactly the reserve: print_ex loops for any number of iterations *)
-Theorem C11_print_ex_nonterminating_refuted :
-  exists l, forall fuel, ex_loop CC fuel (check CC (init CC Fixed PRINT_RESERVE [])) l = None.
-Proof. exact print_ex_nonterminating. Qed.
-Print Assumptions C11_print_ex_nonterminating_refuted.
-
-(* a chain of closing brackets longer than the reserve: table chain 70 deep, 420 byte buffer *)
-Theorem C11_closing_run_exceeds_reserve_refuted :
-  exists v sz s',
-    wfv PRINT_NUM_WRITE_MAX v = true /\ PRINT_RESERVE <= sz /\
-    run CC (root_ops ocfg_current F0 v) (init CC Fixed sz []) = Some s' /\ viol s' = true /\
-    chk CF 0 (root_ops ocfg_current F0 v) = None.
-Proof. exact closing_run_exceeds_reserve. Qed.
-Print Assumptions C11_closing_run_exceeds_reserve_refuted.
-
-(* element separators of union (and table) vectors are unchecked: forty NONE members, indentation 2 *)
-Theorem C11_separator_run_exceeds_reserve_refuted :
-  exists sz s',
-    PRINT_RESERVE <= sz /\
-    run CC (root_ops ocfg_current F2 nulls) (init CC Fixed sz []) = Some s' /\ viol s' = true /\
-    chk CF 0 (root_ops ocfg_current F2 nulls) = None.
-Proof. exact separator_run_exceeds_reserve. Qed.
-Print Assumptions C11_separator_run_exceeds_reserve_refuted.
-
-(* base64 in a growing (or fixed) buffer with 1..3 bytes left below the threshold never advances *)
-Theorem C11_base64_no_progress_refuted :
-  exists s l, md s = Dynamic /\ (exists pre, s = puts (init CC Dynamic 100 []) pre) /\
-    forall fuel, b64_loop CC fuel s l = None.
-Proof. exact base64_no_progress. Qed.
-Print Assumptions C11_base64_no_progress_refuted.
-
 (* ---- the hypotheses are satisfiable ---- *)
 Example C11_hypotheses_satisfiable :
-  wfv PRINT_NUM_WRITE_MAX (chain 98) = true /\ is_fieldlike (chain 98) = false /\
-  no_perr (vops ocfg_fixed F2 0 PRINT_MAX_LEVELS (chain 98) ++ [PChar 10]) = true /\
-  wfv PRINT_NUM_WRITE_MAX nulls = true /\
-  (exists sl', chk CF 0 (root_ops ocfg_fixed F0 (chain 98)) = Some sl') /\
-  option_map (fun s => (r_ret (observe s), r_viol (observe s)))
-    (run CF (root_ops ocfg_fixed F0 (chain 70)) (init CF Fixed 420 [])) = Some (-1, false) /\
-  option_map (fun s => (r_ret (observe s), r_viol (observe s)))
-    (run CF (root_ops ocfg_fixed F0 (chain 70)) (init CF Fixed 492 [])) = Some (427, false).
-Proof. vm_compute. repeat split; try reflexivity. eexists; reflexivity. Qed.
+  let F := mkflags 2 false false in
+  0 <= indent F /\ wfv PRINT_NUM_WRITE_MAX (chain 3) = true /\ is_fieldlike (chain 3) = false /\
+  alloc_ok Dynamic 0 [] /\ (exists sl', chk CF 0 (root_ops ocfg_fixed F (chain 3)) = Some sl').
+Proof.
+  cbv zeta. split; [cbn; lia|]. split; [vm_compute; reflexivity|]. split; [reflexivity|]. split; [intros _; exact I|].
+  apply C11_value_streams_bounded; [cbn; lia|vm_compute; reflexivity|reflexivity].
+Qed.
 
-(* an oracle that does not restore the reserve (64 -> 100 < 64 + 64) gets the distinguished verdict; a good one
-   (64 -> 160 -> 304, the growth-by-half policy) does not and yields the text *)
-Example C11_oracle_verdict :
-  option_map (fun s => r_obad (observe s)) (run CF (root_ops ocfg_fixed F0 (chain 20)) (init CF Dynamic 64 [100])) = Some true /\
-  option_map (fun s => (r_obad (observe s), r_ret (observe s), r_orc_left (observe s)))
-    (run CF (root_ops ocfg_fixed F0 (chain 20)) (init CF Dynamic 64 [160; 304])) = Some (false, 127, 0).
-Proof. vm_compute. split; reflexivity. Qed.
+(* The _refuted theorems about the code as it was pinned, and concrete examples, are in Properties_C11_pinned.v. *)
